@@ -354,16 +354,55 @@ func (g *Gen) damage(w []byte) []byte {
 
 // ---------- C04: User-Password ----------
 
+// reusedBuffers runs f once while the argument buffers hold OTHER contents (same lengths) and restores them:
+// the observed call then receives slices whose backing arrays an earlier call has already seen with different
+// octets (a cache keyed by the caller's slice instead of a copy shows here).  Returns a function reporting
+// whether the observed call changed any argument.
+func reusedBuffers(f func(), bufs ...[]byte) func() bool {
+	saved := make([][]byte, len(bufs))
+	for i, b := range bufs {
+		saved[i] = append([]byte{}, b[:cap(b)]...)
+		for j := range b {
+			b[j] ^= 0x5a
+		}
+	}
+	func() {
+		defer func() { recover() }()
+		f()
+	}()
+	for i, b := range bufs {
+		copy(b[:cap(b)], saved[i])
+	}
+	return func() bool {
+		for i, b := range bufs {
+			if !bytes.Equal(b[:cap(b)], saved[i]) {
+				return true
+			}
+		}
+		return false
+	}
+}
+
 func evalC04(op string, args []string) string {
 	switch op {
 	case "newup":
-		a, err := radius.NewUserPassword(unhx(args[0]), unhx(args[1]), unhx(args[2]))
+		pt, sec, ra := unhx(args[0]), unhx(args[1]), unhx(args[2])
+		changed := reusedBuffers(func() { radius.NewUserPassword(pt, sec, ra) }, pt, sec, ra)
+		a, err := radius.NewUserPassword(pt, sec, ra)
+		if changed() {
+			return "arguments-changed"
+		}
 		if err != nil {
 			return "err"
 		}
 		return "ok " + hx(a)
 	case "up":
-		p, err := radius.UserPassword(unhx(args[0]), unhx(args[1]), unhx(args[2]))
+		ct, sec, ra := unhx(args[0]), unhx(args[1]), unhx(args[2])
+		changed := reusedBuffers(func() { radius.UserPassword(ct, sec, ra) }, ct, sec, ra)
+		p, err := radius.UserPassword(ct, sec, ra)
+		if changed() {
+			return "arguments-changed"
+		}
 		if err != nil {
 			return "err"
 		}
@@ -448,13 +487,28 @@ func genC04(g *Gen, tier string, emit func(op string, args ...string)) {
 func evalC11(op string, args []string) string {
 	switch op {
 	case "newtp":
-		a, err := radius.NewTunnelPassword(unhx(args[0]), unhx(args[1]), unhx(args[2]), unhx(args[3]))
+		pt, salt, sec, ra := unhx(args[0]), unhx(args[1]), unhx(args[2]), unhx(args[3])
+		changed := reusedBuffers(func() { radius.NewTunnelPassword(pt, salt, sec, ra) }, pt, salt, sec, ra)
+		a, err := radius.NewTunnelPassword(pt, salt, sec, ra)
+		if changed() {
+			return "arguments-changed"
+		}
 		if err != nil {
 			return "err"
 		}
 		return "ok " + hx(a)
 	case "tp":
-		pw, salt, err := radius.TunnelPassword(unhx(args[0]), unhx(args[1]), unhx(args[2]))
+		ct, sec, ra := unhx(args[0]), unhx(args[1]), unhx(args[2])
+		changed := reusedBuffers(func() { radius.TunnelPassword(ct, sec, ra) }, ct, sec, ra)
+		pw, salt, err := radius.TunnelPassword(ct, sec, ra)
+		if changed() {
+			return "arguments-changed"
+		}
+		// decrypting the same attribute again gives the same answer
+		pw2, salt2, err2 := radius.TunnelPassword(ct, sec, ra)
+		if (err == nil) != (err2 == nil) || !bytes.Equal(pw, pw2) || !bytes.Equal(salt, salt2) {
+			return "second-decryption-differs"
+		}
 		if err != nil {
 			return "err"
 		}
